@@ -1078,3 +1078,90 @@ func runC09MarkBeforeDescend(c *Ctx) {
 		c.Undecided("recursive walk with a visited set in the graph package", "-", "not found")
 	}
 }
+
+// ---------- C16.R30: static headers are set behind the compressor ----------
+func init() { addRules("C16", runC16HeadersBehindCompression) }
+
+func runC16HeadersBehindCompression(c *Ctx) {
+	p := c.P
+	c.Rule("R30", "ORD", "what the client labels as compressed is compressed: in the construction of the HTTP client the compressing round tripper is wrapped AROUND the one that sets the configured static headers (the header round tripper is part of what the compressor forwards to), so the headers are applied to the request the compressor produced – the other way round a configured `Content-Encoding` header reaches the compressor's `already encoded` safeguard first, the body goes out uncompressed under a compressed label and the server rejects or mis-decodes it", 1)
+	pk := p.Pkg("config/confighttp")
+	if pk == nil {
+		c.Anchor("config/confighttp")
+		return
+	}
+	n := 0
+	for _, fn := range p.AllSrcFuncs(pk) {
+		if fn.Parent() != nil {
+			continue
+		}
+		// the header wrapper: an allocated struct of this package with a map-of-headers field and a RoundTrip method;
+		// the compressor: a call of a package function that takes a RoundTripper and a compression type
+		var hdrAllocs []*ssa.Alloc
+		allInstrs(fn, func(in ssa.Instruction) {
+			al, ok := in.(*ssa.Alloc)
+			if !ok {
+				return
+			}
+			st := derefStruct(al.Type())
+			if st == nil || namedOf(al.Type().(*types.Pointer).Elem()) == nil {
+				return
+			}
+			hasMap, hasRT := false, false
+			for i := 0; i < st.NumFields(); i++ {
+				if _, ok := st.Field(i).Type().Underlying().(*types.Map); ok {
+					hasMap = true
+				}
+				if typeIs(st.Field(i).Type(), "net/http", "RoundTripper") {
+					hasRT = true
+				}
+			}
+			ms := types.NewMethodSet(al.Type())
+			if hasMap && hasRT && ms.Lookup(nil, "RoundTrip") != nil {
+				hdrAllocs = append(hdrAllocs, al)
+			}
+		})
+		var comp []*ssa.Call
+		for _, ci := range calls(fn, func(ci ssa.CallInstruction) bool {
+			sf := staticCalleeFn(ci)
+			if sf == nil || sf.Pkg == nil || sf.Pkg != fn.Pkg || sf.Signature.Params().Len() < 2 {
+				return false
+			}
+			if !typeIs(sf.Signature.Params().At(0).Type(), "net/http", "RoundTripper") {
+				return false
+			}
+			for i := 1; i < sf.Signature.Params().Len(); i++ {
+				if nt := namedOf(sf.Signature.Params().At(i).Type()); nt != nil && strings.Contains(nt.Obj().Pkg().Path(), "configcompression") {
+					return true
+				}
+			}
+			return false
+		}) {
+			if cl, ok := ci.(*ssa.Call); ok {
+				comp = append(comp, cl)
+			}
+		}
+		if len(hdrAllocs) == 0 || len(comp) == 0 {
+			continue
+		}
+		n++
+		ok := true
+		for _, cl := range comp {
+			inner := false
+			for v := range backSlice(cl.Call.Args[0]) {
+				for _, al := range hdrAllocs {
+					if v == ssa.Value(al) {
+						inner = true
+					}
+				}
+			}
+			if !inner {
+				ok = false
+			}
+		}
+		c.Check(ok, "compressor built in "+fnName(fn)+" wraps the static-header round tripper", p.Pos(fn.Pos()), "the header wrapper is inside what the compressor forwards to", "the header wrapper is put around the compressor: `compression: gzip` with a static header `Content-Encoding: gzip` (redundant but harmless before) makes the compressor skip the body – gzip/zlib/deflate requests are answered 400, zstd/snappy/lz4 fail in the handler; a configured Host header is lost as well")
+	}
+	if n == 0 {
+		c.Undecided("client construction with header and compression wrappers", "-", "not found")
+	}
+}
